@@ -98,6 +98,8 @@ class ExprMixin:
     # ------------------------------------------------------------ names / attributes
     def ev_name(self, name, st, old):
         c = self.ctx
+        if name == "result" and getattr(self, "post_mode", False) and "$result" in st.env and "result" not in self.cur_contract.get("params", {}):
+            return st.env["$result"]     # in contracts `result` is the returned value, even when the body has a local of that name
         if name in st.env:
             return st.env[name]
         if name in st.ghost:
